@@ -72,6 +72,7 @@ pub fn handle_to_output(h: Handle) -> (r: OutputHandle) ensures r.0 == h.0 { Out
 pub struct Constant<T>(pub T);
 impl<T> Constant<T> {
     pub fn value(&self) -> (r: &T) ensures *r == self.0 { &self.0 }
+    pub fn new(v: T) -> (r: Self) ensures r.0 == v { Constant(v) }
 }
 
 // ---------------------------------------------------------------------------------------------
@@ -133,6 +134,11 @@ impl SessionFrame {
 #[verifier::external_body]
 #[verifier::reject_recursive_types(T)]
 pub struct OnceCell<T> { c: Option<T> }
+impl<T> OnceCell<T> {
+    /// `Arc::new(OnceLock::new())`: a new, empty cell
+    #[verifier::external_body]
+    pub fn new_empty() -> (r: Self) { unimplemented!() }
+}
 impl<T> OnceCell<T> {
     pub uninterp spec fn val(&self) -> Option<T>;
     #[verifier::external_body]
@@ -1166,6 +1172,24 @@ impl Session {
     ensures
         r == Ok::<SessionFrame, SessionInnerError>(SessionFrame { channel: old(self).outgoing_channel.0, body: SessionFrameBody::Disposition(disposition) }),   // [C02.outgoing-disposition.passthrough] the link's disposition is sent unchanged
         *final(self) == (Session { remote_outgoing_window: final(self).remote_outgoing_window, ..*old(self) }),
+//@@ end
+}
+
+// session::Builder: the fields into_session reads (R11)
+pub struct SessionBuilder { pub next_outgoing_id: TransferNumber, pub incoming_window: TransferNumber, pub outgoing_window: TransferNumber, pub handle_max: Handle,
+    pub offered_capabilities: Option<Vec<Symbol>>, pub desired_capabilities: Option<Vec<Symbol>>, pub properties: Option<Fields> }
+impl SessionBuilder {
+//@@ fn file=fe2o3-amqp/src/session/builder.rs impl=`impl Builder` name=into_session
+//@@ subst `Arc<OnceLock<ConnectionStopReason>>` => `OnceCell<ConnectionStopReason>` rule=R8
+//@@ subst `Arc::new(OnceLock::new())` => `OnceCell::new_empty()` rule=R8
+//@@ spec
+    ensures
+        r.next_outgoing_id == self.next_outgoing_id && r.initial_outgoing_id.0 == self.next_outgoing_id,     // [C07.builder.first-transfer-id] the first transfer frame of a session carries the configured next-outgoing-id, and that is the base the peer's flows are measured from
+        r.incoming_window == self.incoming_window && r.outgoing_window == self.outgoing_window,              // [C07.builder.windows-as-configured] the windows the Begin advertises are the configured ones
+        r.next_incoming_id == 0 && r.remote_incoming_window == 0 && r.remote_outgoing_window == 0 && r.need_flow_count == 0,    // [C07.builder.nothing-assumed-of-the-peer] until the peer's Begin arrives nothing is assumed of its window: no transfer can be sent into a window that was never advertised
+        r.remote_incoming_window_exhausted_buffer@.len() == 0,
+        r.link_by_input_handle@ == Map::<InputHandle, LinkRelay<OutputHandle>>::empty() && r.delivery_tag_by_id@ == Map::<(Role, u32), (InputHandle, DeliveryTag)>::empty(),   // [C11.builder.nothing-attached] a new session has no link attached and no delivery registered
+        r.local_state == local_state && r.outgoing_channel == outgoing_channel && r.incoming_channel is None,
 //@@ end
 }
 
